@@ -67,4 +67,23 @@ theorem gen_to_p2wsh (sha256 : Bytes → Bytes) (T : Tables) (s : List Spec.Tok)
   | error e => rfl
   | ok b => rfl
 
+/-- `Address._script_to_hash160`: what a P2SH address object built from a script holds — HASH160 of the exact script encoding -/
+theorem gen_address_script_to_hash160 (sha256 : Bytes → Bytes) (hlen : ∀ b, (sha256 b).length < 2 ^ 61) (T : Tables) (s : List Spec.Tok) :
+    Gen.address_script_to_hash160 sha256 T.opCodes (s.map toPy) = scriptToHash160 sha256 C20Gen.genTabs T s := by
+  unfold Gen.address_script_to_hash160 scriptToHash160
+  rw [gen_script_to_bytes]
+  cases scriptBytes T s with
+  | error e => rfl
+  | ok b =>
+    rw [ok_bind]
+    simp only []
+    rw [C20Gen.gen_ripemd160 _ (hlen b), ok_bind]
+    rfl
+
+/-- `SegwitAddress._script_to_hash`: what a P2WSH address object built from a script holds — SHA-256 of the exact script encoding -/
+theorem gen_segwit_script_to_hash (sha256 : Bytes → Bytes) (T : Tables) (s : List Spec.Tok) :
+    Gen.segwit_script_to_hash sha256 T.opCodes (s.map toPy) = scriptToSha256 sha256 T s := by
+  unfold Gen.segwit_script_to_hash scriptToSha256
+  rw [gen_script_to_bytes]
+
 end C12Gen
